@@ -1,3 +1,5 @@
+from math import copysign, isnan
+
 from xdsl.dialects import arith, builtin
 from xdsl.dialects.builtin import BoolAttr, IndexType, IntegerType
 from xdsl.ir import OpResult
@@ -67,9 +69,10 @@ def _fold_const_operation(
         case arith.DivfOp:
             if rhs.value.data == 0.0:
                 # this mirrors what mlir does
-                if lhs.value.data == 0.0:
+                if lhs.value.data == 0.0 or isnan(lhs.value.data):
                     val = float("nan")
-                elif lhs.value.data < 0:
+                elif (lhs.value.data < 0) != (copysign(1.0, rhs.value.data) < 0):
+                    # the sign of the infinity depends on the signs of both operands
                     val = float("-inf")
                 else:
                     val = float("inf")
